@@ -539,6 +539,21 @@ func (d *discharger) padChain(site *ssa.Function, padField *types.Var) (bool, st
 					match = true
 				}
 			}
+			// the pad read back from the iterator that is handed on together with the transformer
+			if u, ok := tv.(*ssa.UnOp); ok && u.Op == token.MUL {
+				if _, f2, ok := core.FieldAddrOf(u.X); ok && f2 == itrPad {
+					match = true
+				}
+			}
+			// the same pure expression: padFn(receiver.data)
+			if call, ok := tv.(*ssa.Call); ok && len(fn.Params) > 0 && call.Call.StaticCallee() != nil && len(call.Call.Args) == 1 {
+				if (padFn == nil || call.Call.StaticCallee() == padFn) && c.accessPath(call.Call.Args[0], 0) == "param:"+fn.Params[0].Name()+".data" {
+					if padFn == nil {
+						padFn = call.Call.StaticCallee()
+					}
+					match = true
+				}
+			}
 			if !match {
 				return false, fmt.Sprintf("in %s the name transformer's pad is not the SSA value the list iterator validates links with", core.FuncName(fn))
 			}
@@ -1105,13 +1120,9 @@ func (c *Ctx) checkBoundedWork() {
 	r.Floor("R13.6/cap", ncap, 1)
 	// recursion: every non-trivial SCC of the reader-side graph contains a loader or a direct caller of one, or is a listed arithmetic recursion
 	fetch := c.G.Fetchers(core.ReaderPkgs)
-	callsFetch := map[*ssa.Function]bool{}
-	for f := range fetch {
-		callsFetch[f] = true
-		for _, e := range c.G.In[f] {
-			callsFetch[e.Caller] = true
-		}
-	}
+	// a cycle is load-bounded when some member can reach a block load (directly or through helpers that are not part of
+	// the cycle): each further level of the recursion is entered through a freshly loaded block
+	callsFetch := c.G.ReachersOf(fetch)
 	sccs := c.sccs(func(f *ssa.Function) bool { return c.inC13Scope(f) || (f.Synthetic != "" && isRPWrapper(c, f)) })
 	nscc := 0
 	for _, comp := range sccs {
@@ -1680,5 +1691,5 @@ func (c *Ctx) checkNilResults() {
 			}
 		}
 	}
-	r.Floor("R13.7", n, 2)
+	r.Floor("R13.7", n, 1)
 }
